@@ -77,7 +77,7 @@ pub fn post_oneshot<L: Killed<N>, const N: usize>(l: &L, pre: &[Snap; N], is_err
 /// after the panic the faulted lock refuses every acquisition
 pub fn killed_refuses<L: Killed<N> + core::ops::Index<usize>, const N: usize>(l: &L)
 where
-	L::Output: RawLockD + Sized,
+	L::Output: RawLock + RawLockD + Sized,
 {
 	let w = w();
 	if w.faults == 0 {
@@ -88,9 +88,9 @@ where
 	while i < N {
 		if addrs[i] == w.fault_addr {
 			w.fault_at = 255;
-			let t = unsafe { l[i].d_raw_try_write() };
+			let t = x::raw_try_write(&l[i]);
 			assert!(t == Ok(false), "C12_killed_lock_try_fails");
-			let b = unsafe { l[i].d_raw_write() };
+			let b = x::raw_write(&l[i]);
 			assert!(b == Err(VPanic::Assert), "C12_killed_lock_blocking_acquisition_panics");
 		}
 		i += 1;
@@ -129,27 +129,27 @@ fn dia_q_mutex_raw_ops_oneshot() {
 	kani::assume(op < 3);
 	match op {
 		0 => {
-			let r = unsafe { l[0].d_raw_try_write() };
+			let r = x::raw_try_write(&l[0]);
 			post_oneshot(&l, &pre, r.is_err(), false, 1);
 			if r == Ok(true) {
-				let u = unsafe { l[0].d_raw_unlock_write() };
+				let u = x::raw_unlock_write(&l[0]);
 				post_oneshot(&l, &pre, u.is_err(), false, 0);
 			}
 		}
 		1 => {
-			let r = unsafe { l[0].d_raw_write() };
+			let r = x::raw_write(&l[0]);
 			post_oneshot(&l, &pre, r.is_err(), true, 1);
 			if r.is_ok() {
-				let u = unsafe { l[0].d_raw_unlock_write() };
+				let u = x::raw_unlock_write(&l[0]);
 				post_oneshot(&l, &pre, u.is_err(), true, 0);
 			}
 		}
 		_ => {
 			// Mutex's read operations are its write operations
-			let r = unsafe { l[0].d_raw_try_read() };
+			let r = x::raw_try_read(&l[0]);
 			post_oneshot(&l, &pre, r.is_err(), false, 1);
 			if r == Ok(true) {
-				let u = unsafe { l[0].d_raw_unlock_read() };
+				let u = x::raw_unlock_read(&l[0]);
 				post_oneshot(&l, &pre, u.is_err(), false, 0);
 			}
 		}
@@ -170,34 +170,34 @@ fn dia_q_rwlock_raw_ops_oneshot() {
 	kani::assume(op < 4);
 	match op {
 		0 => {
-			let r = unsafe { l[0].d_raw_try_write() };
+			let r = x::raw_try_write(&l[0]);
 			post_oneshot(&l, &pre, r.is_err(), false, 1);
 			if r == Ok(true) {
-				let u = unsafe { l[0].d_raw_unlock_write() };
+				let u = x::raw_unlock_write(&l[0]);
 				post_oneshot(&l, &pre, u.is_err(), false, 0);
 			}
 		}
 		1 => {
-			let r = unsafe { l[0].d_raw_write() };
+			let r = x::raw_write(&l[0]);
 			post_oneshot(&l, &pre, r.is_err(), true, 1);
 			if r.is_ok() {
-				let u = unsafe { l[0].d_raw_unlock_write() };
+				let u = x::raw_unlock_write(&l[0]);
 				post_oneshot(&l, &pre, u.is_err(), true, 0);
 			}
 		}
 		2 => {
-			let r = unsafe { l[0].d_raw_try_read() };
+			let r = x::raw_try_read(&l[0]);
 			post_oneshot(&l, &pre, r.is_err(), false, 1);
 			if r == Ok(true) {
-				let u = unsafe { l[0].d_raw_unlock_read() };
+				let u = x::raw_unlock_read(&l[0]);
 				post_oneshot(&l, &pre, u.is_err(), false, 0);
 			}
 		}
 		_ => {
-			let r = unsafe { l[0].d_raw_read() };
+			let r = x::raw_read(&l[0]);
 			post_oneshot(&l, &pre, r.is_err(), true, 1);
 			if r.is_ok() {
-				let u = unsafe { l[0].d_raw_unlock_read() };
+				let u = x::raw_unlock_read(&l[0]);
 				post_oneshot(&l, &pre, u.is_err(), true, 0);
 			}
 		}
@@ -211,13 +211,13 @@ fn dia_q_rwlock_raw_ops_oneshot() {
 // ------------------------------------------------------------------------------------------------
 // collections: acquisition under a one-shot fault
 
-pub fn t_fault_try_write<C: RawLockD + Kind<L>, L: Killed<N>, const N: usize>(c: &C, max_ops: u8, class: u8) {
+pub fn t_fault_try_write<C: RawLock + RawLockD + Kind<L>, L: Killed<N>, const N: usize>(c: &C, max_ops: u8, class: u8) {
 	w().fault_class = class;
 	let l = c.leaves();
 	l.set_any_others();
 	let pre = snaps(&l.states());
 	w().fault_at = any_fault_index(max_ops);
-	let r = unsafe { c.d_raw_try_write() };
+	let r = x::raw_try_write(c);
 	post_oneshot(l, &pre, r.is_err(), false, N as u8);
 	kani::cover!(class == 1 || (w().faults == 1 && is_release(w().fault_op)), "fault_in_rollback_release");
 	kani::cover!(class == 2 || (w().faults == 1 && !is_release(w().fault_op)), "fault_in_acquire");
@@ -225,13 +225,13 @@ pub fn t_fault_try_write<C: RawLockD + Kind<L>, L: Killed<N>, const N: usize>(c:
 	kani::cover!(r == Ok(false), "would_block");
 }
 
-pub fn t_fault_try_read<C: RawLockD + Kind<L>, L: Killed<N>, const N: usize>(c: &C, max_ops: u8, class: u8) {
+pub fn t_fault_try_read<C: RawLock + RawLockD + Kind<L>, L: Killed<N>, const N: usize>(c: &C, max_ops: u8, class: u8) {
 	w().fault_class = class;
 	let l = c.leaves();
 	l.set_any_others();
 	let pre = snaps(&l.states());
 	w().fault_at = any_fault_index(max_ops);
-	let r = unsafe { c.d_raw_try_read() };
+	let r = x::raw_try_read(c);
 	post_oneshot(l, &pre, r.is_err(), false, N as u8);
 	kani::cover!(class == 1 || (w().faults == 1 && is_release(w().fault_op)), "fault_in_rollback_release");
 	kani::cover!(class == 2 || (w().faults == 1 && !is_release(w().fault_op)), "fault_in_acquire");
@@ -239,25 +239,25 @@ pub fn t_fault_try_read<C: RawLockD + Kind<L>, L: Killed<N>, const N: usize>(c: 
 	kani::cover!(r == Ok(false), "would_block");
 }
 
-pub fn t_fault_write<C: RawLockD + Kind<L>, L: Killed<N>, const N: usize>(c: &C, max_ops: u8, class: u8) {
+pub fn t_fault_write<C: RawLock + RawLockD + Kind<L>, L: Killed<N>, const N: usize>(c: &C, max_ops: u8, class: u8) {
 	w().fault_class = class;
 	let l = c.leaves();
 	l.set_any_others();
 	let pre = snaps(&l.states());
 	w().fault_at = any_fault_index(max_ops);
-	let r = unsafe { c.d_raw_write() };
+	let r = x::raw_write(c);
 	post_oneshot(l, &pre, r.is_err(), true, N as u8);
 	kani::cover!(w().faults == 1, "fault");
 	kani::cover!(r.is_ok(), "acquired");
 }
 
-pub fn t_fault_read<C: RawLockD + Kind<L>, L: Killed<N>, const N: usize>(c: &C, max_ops: u8, class: u8) {
+pub fn t_fault_read<C: RawLock + RawLockD + Kind<L>, L: Killed<N>, const N: usize>(c: &C, max_ops: u8, class: u8) {
 	w().fault_class = class;
 	let l = c.leaves();
 	l.set_any_others();
 	let pre = snaps(&l.states());
 	w().fault_at = any_fault_index(max_ops);
-	let r = unsafe { c.d_raw_read() };
+	let r = x::raw_read(c);
 	post_oneshot(l, &pre, r.is_err(), true, N as u8);
 	kani::cover!(w().faults == 1, "fault");
 	kani::cover!(r.is_ok(), "acquired");
@@ -284,12 +284,12 @@ pub fn preset_held<L: Killed<N>, const N: usize>(l: &L, shared: bool) {
 }
 
 /// release of a fully held collection under a one-shot fault (the scoped paths and guard-free unlocks)
-pub fn t_fault_unlock<C: RawLockD + Kind<L>, L: Killed<N>, const N: usize>(c: &C, shared: bool) {
+pub fn t_fault_unlock<C: RawLock + RawLockD + Kind<L>, L: Killed<N>, const N: usize>(c: &C, shared: bool) {
 	let l = c.leaves();
 	preset_held(l, shared);
 	let pre = snaps(&l.states());
 	w().fault_at = any_fault_index(N as u8 + 1);
-	let r = if shared { unsafe { c.d_raw_unlock_read() } } else { unsafe { c.d_raw_unlock_write() } };
+	let r = if shared { x::raw_unlock_read(c) } else { x::raw_unlock_write(c) };
 	post_oneshot(l, &pre, r.is_err(), false, 0);
 	if r.is_ok() {
 		assert!(all_balanced(&l.states()), "C05_every_hold_released_once_in_its_mode");
@@ -314,7 +314,7 @@ pub fn t_scoped_write_panics<C: RawLock + RawLockD + Lockable + Kind<L>, L: Kill
 		if user_panics { Err(VPanic::User) } else { Ok(17) }
 	};
 	let mut key = ThreadKey::get().unwrap();
-	let r = if lend { d_scoped_write(c, &mut key, body) } else { d_scoped_write(c, key, body) };
+	let r = if lend { x::scoped_write(c, &mut key, body) } else { x::scoped_write(c, key, body) };
 	if w().faults == 0 {
 		// only user code can have panicked
 		assert!(r == if user_panics { Err(VPanic::User) } else { Ok(17) }, "C11_user_panic_propagates_to_the_caller_and_nothing_else_does");
